@@ -79,6 +79,8 @@ int main(void)
      if ((unsigned char) (line.s[i] - '0') > 9) break;
    if (i < line.len - 1) { respond("x"); continue; }
    if (!scan_ulong(line.s + 5,&id)) { respond("x"); continue; }
+   if (fmt_ulong(fnbuf,id) != line.len - 6 || !byte_equal(fnbuf,line.len - 6,line.s + 5))
+    { respond("x"); continue; } /* not the number as qmail-send writes it: too big for id, leading zeros */
    if (byte_equal(line.s,5,"foop/"))
     {
 #define U(prefix,flag) fmtqfn(fnbuf,prefix,id,flag); \
